@@ -297,24 +297,61 @@ func (v *Verifier) Discharge(work string, tmo int, par int, depth int) []*Result
 	// rendering is sequential (TermCtx is not thread-safe)
 	files := make([]string, len(v.obligations))
 	texts := make([]string, len(v.obligations))
-	nlFiles := make([]string, len(v.obligations))
+	type variant struct {
+		file, label string
+		cvc5ok    bool
+	}
+	variants := make([][]variant, len(v.obligations))
+	abstractable := map[string]bool{}
+	for n := range v.c.defSigs {
+		abstractable[n] = true
+	}
 	for i, o := range v.obligations {
 		q := v.buildQuery(o, depth)
 		text := v.c.Render(q, true)
 		fn := filepath.Join(work, sanitizeFile(o.Name)+".smt2")
 		os.WriteFile(fn, []byte(text), 0o644)
 		files[i], texts[i] = fn, text
-		if o.Goal != nil && (strings.Contains(text, "(* ") || strings.Contains(text, "(div ") || strings.Contains(text, "(mod ") || strings.Contains(text, "quo ")) {
-			q2 := &Query{Name: o.Name + " [nonlinear operations abstracted to uninterpreted functions]", Extra: q.Extra, Comment: q.Comment}
-			for _, a := range q.Assume {
-				q2.Assume = append(q2.Assume, v.c.AbstractNL(a))
+		if o.Goal == nil {
+			continue
+		}
+		hasNL := strings.Contains(text, "(* ") || strings.Contains(text, "(div ") || strings.Contains(text, "(mod ") || strings.Contains(text, "quo ")
+		usesMap := false
+		for n := range abstractable {
+			if strings.Contains(text, "("+n+" ") {
+				usesMap = true
 			}
-			q2.Goal = v.c.AbstractNL(q.Goal)
+		}
+		mk := func(nl, cabs bool, suffix, label string) {
+			q2 := &Query{Name: o.Name + " [" + label + "]", Extra: q.Extra, Comment: q.Comment}
+			if cabs {
+				q2.Abstract = abstractable
+			}
+			for _, a := range q.Assume {
+				if nl {
+					a = v.c.AbstractNL(a)
+				}
+				q2.Assume = append(q2.Assume, a)
+			}
+			q2.Goal = q.Goal
+			if nl {
+				q2.Goal = v.c.AbstractNL(q.Goal)
+			}
 			t2 := v.c.Render(q2, false)
-			if strings.Contains(t2, "nl_") {
-				fn2 := filepath.Join(work, sanitizeFile(o.Name)+".nl.smt2")
-				os.WriteFile(fn2, []byte(t2), 0o644)
-				nlFiles[i] = fn2
+			if nl && !strings.Contains(t2, "nl_") {
+				return
+			}
+			fn2 := filepath.Join(work, sanitizeFile(o.Name)+suffix)
+			os.WriteFile(fn2, []byte(t2), 0o644)
+			variants[i] = append(variants[i], variant{fn2, label, !strings.Contains(t2, "(_ map") && !strings.Contains(t2, "(lambda")})
+		}
+		if hasNL {
+			mk(true, false, ".nl.smt2", "nl-abstraction")
+		}
+		if usesMap {
+			mk(false, true, ".ca.smt2", "coins-abstraction")
+			if hasNL {
+				mk(true, true, ".nlca.smt2", "nl+coins-abstraction")
 			}
 		}
 	}
@@ -332,7 +369,7 @@ func (v *Verifier) Discharge(work string, tmo int, par int, depth int) []*Result
 				sec            float64
 			}
 			ctx, cancel := context.WithCancel(context.Background())
-			ch := make(chan ans, len(solvers))
+			ch := make(chan ans, 4*len(solvers)+4)
 			n := 0
 			for _, sp := range solvers {
 				if sp.skip(texts[i]) {
@@ -347,15 +384,20 @@ func (v *Verifier) Discharge(work string, tmo int, par int, depth int) []*Result
 					a, out, sec := runSolver(ctx, sp, files[i], tm)
 					ch <- ans{a, out, sp.name, sec}
 				}(sp)
-				if nlFiles[i] != "" && sp.name != "z3-4.8.12" {
+			}
+			for _, vr := range variants[i] {
+				for _, sp := range solvers {
+					if sp.name == "z3-4.8.12" || (sp.name == "cvc5-1.0" && !vr.cvc5ok) {
+						continue
+					}
 					n++
-					go func(sp solverSpec) {
-						a, out, sec := runSolver(ctx, sp, nlFiles[i], tmo)
+					go func(sp solverSpec, vr variant) {
+						a, out, sec := runSolver(ctx, sp, vr.file, tmo)
 						if a == "sat" {
 							a = "unknown" // spurious under abstraction
 						}
-						ch <- ans{a, out, sp.name + "+nl-abstraction", sec}
-					}(sp)
+						ch <- ans{a, out, sp.name + "+" + vr.label, sec}
+					}(sp, vr)
 				}
 			}
 			var best *ans
